@@ -135,6 +135,9 @@ def make_fn(spec, idx, log, flavour="def"):
     if flavour == "objx":
         # callable object returning a coroutine that fails SYNCHRONOUSLY (at call time) when it is to fail
         class ObjX:
+            def __bool__(self):      # a callable object may be falsy: "a key was given" is `key is not None`
+                return False
+
             def __call__(self, *args):
                 if spec.get("fail_at") == state["n"]:
                     return body(args)        # raises here, no coroutine is created
@@ -146,6 +149,9 @@ def make_fn(spec, idx, log, flavour="def"):
         return ObjX()
     if flavour == "obj":
         class Obj:
+            def __len__(self):       # falsy by way of an empty container protocol (e.g. a registry that is callable)
+                return 0
+
             def __call__(self, *args):
                 async def co():
                     await pre()
@@ -394,6 +400,7 @@ def run_async(case, reply=None):
         n = len(log)
         res = drive(thing.aclose(), reply)
         del log[n:]
+        result["owner_close_tokens"] = res.tokens
         result["srcs_after_owner_close"] = [s.summary() for s in states]
         result["owner_close_exc"] = exc_name(res.exc)
     return result
